@@ -2,6 +2,7 @@
 import os
 import sys
 
+sys.dont_write_bytecode = True
 sys.path.insert(0, os.path.dirname(os.path.abspath(__file__)))
 from _common import scratch_project, require, emit, run_replay, tail  # noqa: E402
 
